@@ -6,6 +6,7 @@ import PhyVerif.Model.C12b
 import PhyVerif.Driver.C16
 import PhyVerif.Model.C11e
 import PhyVerif.Model.C12c
+import PhyVerif.Model.C11l
 namespace PhyVerif.Driver
 open Lean PhyVerif
 
@@ -61,6 +62,19 @@ def asMEntry (j : Json) : R (C11.Path × C11.File) := do
   let d ← getStr j "dir"; let n ← getStr j "name"; let f ← fld j "file" >>= asMFile
   pure ((d, n), f)
 
+/-- outcome of a merge that started on `fs`: exception, files of the output directory, frame -/
+def jMergeOutcome (fs : C11.FS) (out : String) (r : (C11.FS × C11.Reg) × Option C11.MergeErr) : Json :=
+  let fs' := r.1.1
+  let dirs := (fs.map (·.1.1) ++ fs'.map (·.1.1)).eraseDups.filter (· != out)
+  let untouched := dirs.all fun d =>
+    let n0 := C11.FS.names fs d; let n1 := C11.FS.names fs' d
+    n0.all (n1.contains ·) && n1.all (n0.contains ·) && n0.all fun n => C11.FS.read fs (d, n) == C11.FS.read fs' (d, n)
+  Json.mkObj [
+    ("error", jOpt jMErr r.2),
+    ("others_untouched", Json.bool untouched),
+    ("out_names", jList Json.str (C11.FS.names fs' out)),
+    ("out", Json.mkObj ((C11.FS.names fs' out).filterMap fun n => (C11.FS.read fs' (out, n)).map fun f => (n, jMFile f)))]
+
 def runC11 (op : String) (j : Json) : R Json := do
   match op with
   | "merge_fs" =>
@@ -69,17 +83,20 @@ def runC11 (op : String) (j : Json) : R Json := do
     let fs ← fld j "fs" >>= asList asMEntry
     let subdirs ← fld j "subdirs" >>= asList asStr
     let out ← getStr j "out"
-    let r := C11.merge fs subdirs out
-    let fs' := r.1.1
-    let dirs := (fs.map (·.1.1) ++ fs'.map (·.1.1)).eraseDups.filter (· != out)
-    let untouched := dirs.all fun d =>
-      let n0 := C11.FS.names fs d; let n1 := C11.FS.names fs' d
-      n0.all (n1.contains ·) && n1.all (n0.contains ·) && n0.all fun n => C11.FS.read fs (d, n) == C11.FS.read fs' (d, n)
-    pure (Json.mkObj [
-      ("error", jOpt jMErr r.2),
-      ("others_untouched", Json.bool untouched),
-      ("out_names", jList Json.str (C11.FS.names fs' out)),
-      ("out", Json.mkObj ((C11.FS.names fs' out).filterMap fun n => (C11.FS.read fs' (out, n)).map fun f => (n, jMFile f)))])
+    pure (jMergeOutcome fs out (C11.merge fs subdirs out))
+  | "merge_fs_retry" =>
+    -- `m = Merger(subdirs, out); m.merge()` on `fs` (returns or raises), the files `edits` are then put into the
+    -- probe directories and `m.merge()` runs again on the SAME object (`C11.mergeRetry`: the second call starts
+    -- with the registers the first one left): the outcome of the second call as for "merge_fs" (paths outside the
+    -- output directory compared with the edited directories), and under "first" what the first call raised and left
+    let fs ← fld j "fs" >>= asList asMEntry
+    let edits ← fld j "edits" >>= asList asMEntry
+    let subdirs ← fld j "subdirs" >>= asList asStr
+    let out ← getStr j "out"
+    let r := C11.mergeRetry fs edits subdirs out
+    pure ((jMergeOutcome (C11.applyEdits fs edits) out r.2).setObjVal! "first" (Json.mkObj [
+      ("error", jOpt jMErr r.1.2),
+      ("out_names", jList Json.str (C11.FS.names r.1.1.1 out))]))
   | "merge_spikes" =>
     let times ← getIntss j "times"; let sc ← getNatss j "clusters"; let st ← getNatss j "templates"
     let counts ← getNats j "template_counts"
